@@ -626,11 +626,27 @@ def rule_R18(text, log):
     return text
 
 
-RULES = {'R9b': rule_R9b, 'R18': rule_R18, 'R4b': rule_R4b, 'R4c': rule_R4c, 'R4d': rule_R4d, 'R9c': rule_R9c, 'R16': rule_R16, 'R5': rule_R5, 'R15': rule_R15, 'R6bp': rule_R6bp,
+def rule_R19(text, log):
+    """E.map_err(|_| X)  ==>  (match E { Ok(x__) => Ok(x__), Err(_) => Err(X) })     (std definition)"""
+    def fn(t, m, c):
+        if c['params'] != '_':
+            return None
+        recv = t[c['recv_start']:c['dot']].rstrip()
+        before = t[c['recv_start']:c['close'] + 1]
+        after = '(match %s { Ok(x__) => Ok(x__), Err(_) => Err(%s) })' % (recv, c['body'])
+        log.append(dict(rule='R19', before=before[:200], after=after[:200]))
+        return t[:c['recv_start']] + after + t[c['close'] + 1:]
+    changed = True
+    while changed:
+        text, changed = _apply_once(text, 'map_err', fn)
+    return text
+
+
+RULES = {'R19': rule_R19, 'R9b': rule_R9b, 'R18': rule_R18, 'R4b': rule_R4b, 'R4c': rule_R4c, 'R4d': rule_R4d, 'R9c': rule_R9c, 'R16': rule_R16, 'R5': rule_R5, 'R15': rule_R15, 'R6bp': rule_R6bp,
     'R1': rule_R1, 'R2': rule_R2, 'R3': rule_R3, 'R3b': rule_R3b, 'R4': rule_R4,
     'R6': rule_R6, 'R6b': rule_R6b, 'R6c': rule_R6c,
 }
-DEFAULT_ORDER = ['R15', 'R18', 'R6c', 'R9b', 'R1', 'R2', 'R3', 'R3b', 'R6', 'R6b', 'R6bp', 'R4']
+DEFAULT_ORDER = ['R15', 'R18', 'R19', 'R6c', 'R9b', 'R1', 'R2', 'R3', 'R3b', 'R6', 'R6b', 'R6bp', 'R4']
 
 
 def apply_rules(text, log, rules=None):
